@@ -6,7 +6,11 @@ pub mod c02;
 pub mod c04;
 pub mod c05;
 pub mod c06;
+pub mod c11;
 pub mod c14;
+pub mod c15;
+pub mod c16;
+pub mod c19;
 
 pub fn dispatch(pos: &[String], tier: Tier, seed: u64, replay: Option<String>) -> i32 {
     let id = pos.first().map(|s| s.as_str()).unwrap_or("");
@@ -18,7 +22,11 @@ pub fn dispatch(pos: &[String], tier: Tier, seed: u64, replay: Option<String>) -
         "C04" => c04::run(tier, seed, replay),
         "C05" => c05::run(tier, seed, replay),
         "C06" => c06::run(tier, seed, replay),
+        "C11" => c11::run(tier, seed, replay),
         "C14" => c14::run(tier, seed, replay),
+        "C15" => c15::run(tier, seed, replay),
+        "C16" => c16::run(tier, seed, replay),
+        "C19" => c19::run(tier, seed, replay),
         _ => {
             eprintln!("unknown property {id}");
             2
